@@ -6,10 +6,17 @@ One Lean branch per Go `case`. Go faults are explicit (`Except Fault`): the inte
 `left == right` panics when both operands hold the same uncomparable dynamic type (`[]any` or
 `map[string]any`), `sstack[0]` panics on an empty program.
 
-The model is parametrised by `Dev`, the list of operator-level DEVIATIONS of the pinned tree from the
-specification (known findings C12-uncomparable-panic, C12-neq-float, C12-int-via-float64). `Dev.pinned`
-is the tree as first pinned, `Dev.current` the code after the applied `fix:` commits; switching a flag off
+The model is parametrised by `Dev`, the list of operator-level DEVIATIONS from the specification (findings
+C12-uncomparable-panic, C12-neq-float, C12-int-via-float64 — repaired — and, found in round 3 and still in the
+code, C12-iface-field-panic). `Dev.pinned` is the tree as first pinned, `Dev.current` the code after the applied
+`fix:` commits (one flag left: `ifaceTrap`), `Dev.fixed` the code with every proposed fix; switching a flag off
 gives the code with the corresponding fix applied.
+
+Round 3: operands may be TYPED Go values (`Val.ext`, Script/Num.lean): the `Normalize` switch / `normalize()` are
+`Val.norm`, applied to everything a path yields (`resolveItem`); template constants are produced by the exported
+builders and the parser only as nil/bool/int64/float64/string/[]any/Nothing/*Regexp, on which the switch is the
+identity. `sameValue` is modelled as the code has it (`comparable`, `goEq`, `sameValue`), `ifaceEq d` being the
+comparison of code variant `d`.
 Two further former findings were not operator-level: C12-bare-path (repaired by fe63c88 for built
 `Get(x)` scripts and by 6b93c2a — the `bare` branch of `matchElem` — for filters; `matchGeneral` on
 `compile false` is the behaviour before), C12-fn-arg-rotation (repaired by
